@@ -34,7 +34,9 @@ Observed ==
     /\ Ev.senders.locked <=> (writer' # None)
     /\ ~Ev.senders.locked =>
           /\ senders'.ctr = Ev.senders.ctr
-          /\ senders' # NoEntry => ctr'[senders'.ctr] = Ev.senders.val
+          /\ senders' # NoEntry =>
+                /\ Ev.senders.mlocked <=> (cmutex'[senders'.ctr] # None)
+                /\ ~Ev.senders.mlocked => ctr'[senders'.ctr] = Ev.senders.val
     /\ Len(mailbox') = Len(Ev.mailbox)
     /\ \A j \in 1..Len(mailbox') : mailbox'[j].t = Ev.mailbox[j].t /\ mailbox'[j].by = Ev.mailbox[j].by
     /\ session' = Ev.session
@@ -47,12 +49,15 @@ StepReset ==
     /\ hctr' = [h \in HandleId |-> None]
     /\ hsess' = [h \in HandleId |-> None]
     /\ ctr' = [c \in Proc |-> 0]
+    /\ cmutex' = [c \in Proc |-> None]
     /\ senders' = NoEntry
     /\ readers' = {} /\ writer' = None
     /\ mailbox' = <<>>
     /\ session' = None /\ orphans' = {}
 
 StepReadSenders == Ev.ev = "ReadSenders" /\ ReadSenders(Ev.p) /\ Observed
+StepResumeRead == Ev.ev = "ResumeRead" /\ ResumeRead(Ev.p) /\ Observed
+StepResumeWrite == Ev.ev = "ResumeWrite" /\ ResumeWrite(Ev.p) /\ Observed
 StepCloneGuard == Ev.ev = "CloneGuard" /\ CloneGuard(Ev.p) /\ Observed
 StepAcquireWrite == Ev.ev = "AcquireWrite" /\ AcquireWrite(Ev.p) /\ Observed
 StepCallSubscribe == Ev.ev = "CallSubscribe" /\ CallSubscribe(Ev.p) /\ Observed
@@ -69,7 +74,7 @@ TraceNext ==
     /\ i <= Len(Rec)
     /\ i' = i + 1
     /\ \/ StepReset
-       \/ StepReadSenders \/ StepCloneGuard \/ StepAcquireWrite \/ StepCallSubscribe
+       \/ StepReadSenders \/ StepResumeRead \/ StepResumeWrite \/ StepCloneGuard \/ StepAcquireWrite \/ StepCallSubscribe
        \/ StepInsertSenders \/ StepCancelStream \/ StepActorStep \/ StepCloneHandle \/ StepFetchSub \/ StepSendUnsub
 
 TraceSpec == TraceInit /\ [][TraceNext]_tvars
